@@ -93,6 +93,25 @@ def compiler_version(cc):
     return _compiler_version[cc]
 
 
+def prune_cache(max_age_hours=12.0):
+    """Content-addressed entries of superseded trees/harness versions are never hit again: drop every entry whose lock
+    file (touched by each build() call) is older than max_age_hours.  Disk space is limited."""
+    now = time.time()
+    try:
+        names = os.listdir(CACHE)
+    except OSError:
+        return
+    for n in names:
+        d = os.path.join(CACHE, n)
+        try:
+            ref = os.path.join(d, "lock")
+            age = now - os.stat(ref if os.path.exists(ref) else d).st_mtime
+            if age > max_age_hours * 3600:
+                shutil.rmtree(d, ignore_errors=True)
+        except OSError:
+            pass
+
+
 class BuildError(Exception):
     def __init__(self, msg, diag):
         super().__init__(msg)
